@@ -9,8 +9,7 @@ Open Scope Z_scope.
 (* lists *)
 
 (* right-nest every ++ and compute it on explicit heads *)
-Ltac lnorm := repeat (rewrite <- app_assoc); cbn [app];
-              repeat (rewrite <- app_assoc); cbn [app].
+Ltac lnorm := repeat (first [rewrite <- app_assoc | progress cbn [app]]).
 
 Lemma rv_rev (l : list Z) : rv l = rev l.
 Proof. unfold rv. rewrite rev_append_rev, app_nil_r. reflexivity. Qed.
@@ -94,13 +93,15 @@ Qed.
 (* ------------------------------------------------------------------ *)
 (* strip *)
 
-Lemma lstrip_suffix ws s : exists t, s = t ++ lstrip_by ws s.
+Lemma lstrip_suffix ws s :
+  exists t, s = t ++ lstrip_by ws s /\ forallb ws t = true.
 Proof.
-  induction s as [|c s [t IH]].
-  - exists []. reflexivity.
-  - cbn [lstrip_by]. destruct (ws c).
-    + exists (c :: t). cbn [app]. rewrite <- IH. reflexivity.
-    + exists []. reflexivity.
+  induction s as [|c s [t [IH Ht]]].
+  - exists []. split; reflexivity.
+  - cbn [lstrip_by]. destruct (ws c) eqn:E.
+    + exists (c :: t). cbn [app forallb]. rewrite <- IH, E, Ht.
+      split; reflexivity.
+    + exists []. split; reflexivity.
 Qed.
 
 Lemma lstrip_app_all ws a b :
@@ -120,18 +121,22 @@ Qed.
 Lemma rstrip_by_rev ws l : rstrip_by ws l = rev (lstrip_by ws (rev l)).
 Proof. unfold rstrip_by. rewrite !rv_rev. reflexivity. Qed.
 
-Lemma rstrip_prefix ws l : exists t, l = rstrip_by ws l ++ t.
-Proof.
-  rewrite rstrip_by_rev. destruct (lstrip_suffix ws (rev l)) as [t H].
-  exists (rev t). rewrite <- rev_app_distr, <- H, rev_involutive. reflexivity.
-Qed.
-
 Lemma forallb_rev {A} (f : A -> bool) l : forallb f (rev l) = forallb f l.
 Proof.
   induction l as [|x l IH]; [reflexivity|].
   cbn [rev forallb]. rewrite forallb_app, IH. cbn [forallb].
   rewrite andb_true_r. apply andb_comm.
 Qed.
+
+Lemma rstrip_prefix ws l :
+  exists t, l = rstrip_by ws l ++ t /\ forallb ws t = true.
+Proof.
+  rewrite rstrip_by_rev. destruct (lstrip_suffix ws (rev l)) as [t [H Ht]].
+  exists (rev t). split.
+  - rewrite <- rev_app_distr, <- H, rev_involutive. reflexivity.
+  - rewrite forallb_rev. exact Ht.
+Qed.
+
 
 (* x ends with a non-blank character, w is all blank *)
 Lemma rstrip_app_ws ws x c w :
@@ -269,32 +274,46 @@ Qed.
 
 Lemma boundary_hit_some nb lb line lfend k :
   boundary_hit nb lb line lfend = Some k ->
-  lfend = true /\ ((k = 0 /\ exists t, line = nb ++ t) \/
-                   (k = 1 /\ exists t, line = lb ++ t)).
+  lfend = true /\
+  ((k = 0 /\ exists t, line = nb ++ t /\ forallb is_ws t = true) \/
+   (k = 1 /\ exists t, line = lb ++ t /\ forallb is_ws t = true)).
 Proof.
   unfold boundary_hit. destruct (prefixb [45; 45] line && lfend) eqn:E;
     [|discriminate].
   apply andb_true_iff in E as [_ ->]. cbv zeta. intros H.
   split; [reflexivity|].
-  destruct (rstrip_prefix is_ws line) as [t Ht]. fold rstrip in Ht.
+  destruct (rstrip_prefix is_ws line) as [t [Ht Hws]]. fold rstrip in Ht.
   destruct (lz_eqb (rstrip line) nb) eqn:E1.
   - injection H as <-. apply lz_eqb_eq in E1. left.
-    split; [reflexivity|]. exists t. rewrite <- E1. exact Ht.
+    split; [reflexivity|]. exists t. rewrite <- E1. split; assumption.
   - destruct (lz_eqb (rstrip line) lb) eqn:E2; [|discriminate].
     injection H as <-. apply lz_eqb_eq in E2. right.
-    split; [reflexivity|]. exists t. rewrite <- E2. exact Ht.
+    split; [reflexivity|]. exists t. rewrite <- E2. split; assumption.
 Qed.
+
+Lemma harmless_ws x r : is_ws x = true -> harmless (x :: r) = false.
+Proof. intros H. cbn [harmless]. rewrite H. reflexivity. Qed.
 
 Lemma ends_lf_app a l : ends_lf l -> ends_lf (a ++ l).
 Proof. intros [z ->]. exists (a ++ z). rewrite app_assoc. reflexivity. Qed.
 
+Lemma not_ends_lf_in l x : ~ In 10 x -> (exists t, x = l ++ t) -> l <> [] ->
+  ~ ends_lf l.
+Proof.
+  intros Hx [t ->] Hne [z ->]. apply Hx. apply in_or_app. left.
+  apply in_or_app. right. left. reflexivity.
+Qed.
+
 (* phase A: the delimiter CRLF--b is still completely unread *)
-Lemma step_content b c w d lfend l u' c2 z :
+Lemma step_content maxline b c w d lfend l u' c2 z :
   (forall x, In x b -> 32 <= x <= 126) ->
-  ~ occurs (10 :: dashb b) (10 :: c) ->
+  len b + 6 <= maxline ->
+  no_delim_line b c ->
   w ++ d ++ c2 = c ->
   (lfend = true -> w ++ d = [] \/ ends_lf (w ++ d)) ->
-  l <> [] -> no_inner_crlf l -> l ++ u' = c2 ++ [13; 10] ++ z ->
+  l <> [] -> no_inner_crlf l ->
+  (~ ends_lf l -> maxline <= len l \/ u' = []) ->
+  l ++ u' = c2 ++ [13; 10] ++ z ->
   exists piece d' lf',
     rlob_step (dashb b) (dashb b ++ [45; 45]) d lfend l = SCont piece d' lf' /\
     (w ++ piece) ++ d' = (w ++ d) ++ l /\
@@ -304,7 +323,7 @@ Lemma step_content b c w d lfend l u' c2 z :
      (d' = [13] /\ w ++ piece = c /\ u' = 10 :: z) \/
      (d' = [13; 10] /\ w ++ piece = c /\ lf' = true /\ u' = z)).
 Proof.
-  intros Hb Hocc Hc Hlf Hne Hin Hcat.
+  intros Hb Hmaxb Hnd Hc Hlf Hne Hin Hfull Hcat.
   destruct (piece_cases l u' c2 z Hcat Hin) as (l1 & c2b & m & Hl & Hc2 & Hm).
   destruct (carry_spec d l) as (dpre & odelim & Hcarry & Hd & Hdpre).
   unfold rlob_step. rewrite Hcarry.
@@ -313,23 +332,79 @@ Proof.
   { destruct (boundary_hit (dashb b) (dashb b ++ [45; 45]) (dpre ++ l) lfend)
       as [hit|] eqn:E; [|reflexivity]. exfalso.
     apply boundary_hit_some in E as [Elf E].
-    assert (Hpre : exists t, dpre ++ l = dashb b ++ t).
-    { destruct E as [[_ [t Ht]] | [_ [t Ht]]].
-      - exists t. exact Ht.
-      - exists ([45; 45] ++ t). rewrite Ht, <- app_assoc. reflexivity. }
-    destruct Hpre as [t Ht].
+    (* the line is the dash-boundary followed by t0 = blanks or "--" blanks *)
+    assert (Hpre : exists t0, dpre ++ l = dashb b ++ t0 /\
+              (forallb is_ws t0 = true \/
+               exists t, t0 = 45 :: 45 :: t /\ forallb is_ws t = true)).
+    { destruct E as [[_ [t [Ht Hw]]] | [_ [t [Ht Hw]]]].
+      - exists t. split; [exact Ht | left; exact Hw].
+      - exists ([45; 45] ++ t). split; [rewrite Ht; lnorm; reflexivity|].
+        right. exists t. split; [reflexivity | exact Hw]. }
+    destruct Hpre as [t0 [Ht Hform]].
     destruct Hdpre as [-> | ->]; [|discriminate Ht].
     cbn [app] in Ht, Hd. rewrite app_nil_r in Hd. subst odelim.
     rewrite Hl in Ht.
     assert (H13 : ~ In 13 (dashb b)).
     { intros Hi. apply (dashb_chars b 13 Hb) in Hi. lia. }
-    destruct (app_prefix_clean l1 m (dashb b) t 13 Ht H13) as [k Hk].
+    assert (H10 : ~ In 10 (dashb b)).
+    { intros Hi. apply (dashb_chars b 10 Hb) in Hi. lia. }
+    destruct (app_prefix_clean l1 m (dashb b) t0 13 Ht H13) as [k Hk].
     { destruct Hm as [[-> _] | [[-> _] | [-> _]]]; eauto. }
-    apply Hocc. specialize (Hlf Elf). rewrite <- Hc, Hc2, Hk.
-    destruct Hlf as [Hlf | [y Hlf]].
-    - exists [], (k ++ c2b). rewrite app_assoc, Hlf. lnorm. reflexivity.
-    - exists (10 :: y), (k ++ c2b). rewrite app_assoc, Hlf. lnorm.
-      reflexivity. }
+    rewrite Hk, <- app_assoc in Ht. apply app_inv_head in Ht.
+    (* the dash-boundary starts a line of the content *)
+    assert (Hh : harmless ((k ++ c2b) ++ [13; 10]) = true).
+    { specialize (Hlf Elf). destruct Hlf as [Hlf | [y Hlf]].
+      - apply (Hnd [] (k ++ c2b)). rewrite <- Hc, Hc2, Hk, app_assoc, Hlf.
+        lnorm. reflexivity.
+      - apply (Hnd (10 :: y) (k ++ c2b)).
+        rewrite <- Hc, Hc2, Hk, app_assoc, Hlf. lnorm. reflexivity. }
+    assert (Hlen_db : len (dashb b) = len b + 2)
+      by (unfold dashb; rewrite !len_cons; lia).
+    (* a piece that is exactly "--b" or "--b--" inside the content would be a
+       size cut, but the line limit is larger *)
+    assert (Hshort : m = [] -> (k = [] \/ k = [45; 45]) -> False).
+    { intros Hm0 Hk0. subst m. rewrite app_nil_r in Hl.
+      destruct Hm as [[_ Hu] | [[Hx _] | [Hx _]]]; try discriminate Hx.
+      assert (Hnl : ~ ends_lf l).
+      { apply (not_ends_lf_in l l); [|exists []; rewrite app_nil_r; reflexivity
+                                     |exact Hne].
+        rewrite Hl, Hk. intros Hi. apply in_app_or in Hi as [Hi|Hi];
+          [exact (H10 Hi)|].
+        destruct Hk0 as [-> | ->]; cbn in Hi; intuition discriminate. }
+      destruct (Hfull Hnl) as [Hf | Hf].
+      - rewrite Hl, Hk, len_app, Hlen_db in Hf.
+        destruct Hk0 as [-> | ->];
+          [change (len (@nil Z)) with 0 in Hf | change (len [45; 45]) with 2 in Hf];
+          lia.
+      - rewrite Hu in Hf. destruct c2b; discriminate. }
+    destruct Hform as [Hw | [t [He Hw]]].
+    - (* blanks only *)
+      destruct k as [|k1 k].
+      + destruct m as [|m1 m'] eqn:Em.
+        * apply Hshort; [reflexivity | left; reflexivity].
+        * assert (c2b = []) by (destruct Hm as [[Hx _] | [[_ [Hx _]] | [_ [Hx _]]]];
+                                [discriminate Hx | exact Hx | exact Hx]).
+          subst c2b. cbn [app] in Hh.
+          cbn in Hh. discriminate.
+      + cbn [app] in Ht. subst t0. cbn [forallb] in Hw.
+        apply andb_true_iff in Hw as [Hw _].
+        cbn [app] in Hh. rewrite (harmless_ws k1 _ Hw) in Hh. discriminate.
+    - (* "--" and blanks *)
+      rewrite He in Ht.
+      destruct k as [|k1 [|k2 [|k3 k]]].
+      + cbn [app] in Ht. destruct Hm as [[-> _] | [[-> _] | [-> _]]];
+          discriminate Ht.
+      + cbn [app] in Ht. injection Ht as _ Ht.
+        destruct Hm as [[-> _] | [[-> _] | [-> _]]]; discriminate Ht.
+      + cbn [app] in Ht. injection Ht as -> -> Ht.
+        destruct m as [|m1 m'] eqn:Em.
+        * apply Hshort; [reflexivity | right; reflexivity].
+        * assert (c2b = []) by (destruct Hm as [[Hx _] | [[_ [Hx _]] | [_ [Hx _]]]];
+                                [discriminate Hx | exact Hx | exact Hx]).
+          subst c2b. cbn in Hh. discriminate.
+      + cbn [app] in Ht. injection Ht as -> -> Ht. subst t.
+        cbn [app forallb] in Hw. apply andb_true_iff in Hw as [Hw _].
+        cbn [app harmless] in Hh. cbn in Hh. rewrite Hw in Hh. discriminate. }
   rewrite Hhit.
   assert (Hwd : forall r, w ++ odelim ++ dpre ++ r = (w ++ d) ++ r).
   { intros r. rewrite <- Hd, <- !app_assoc. reflexivity. }
@@ -449,13 +524,6 @@ Qed.
 (* ------------------------------------------------------------------ *)
 (* what the contract says about complete lines *)
 
-Lemma not_ends_lf_in l x : ~ In 10 x -> (exists t, x = l ++ t) -> l <> [] ->
-  ~ ends_lf l.
-Proof.
-  intros Hx [t ->] Hne [z ->]. apply Hx. apply in_or_app. left.
-  apply in_or_app. right. left. reflexivity.
-Qed.
-
 Section Reader.
   Variable St : Type.
   Variable rl : Z -> St -> bytes * St.
@@ -567,7 +635,8 @@ Section Exact.
   Hypothesis Hpad : forallb is_blank_c pad = true.
   Hypothesis Heol : eol = [13; 10] \/ (eol = [] /\ rest = []).
   Hypothesis Hmax : len (bline b last pad) + 2 <= maxline.
-  Hypothesis Hocc : ~ occurs (10 :: dashb b) (10 :: c).
+  Hypothesis Hmaxb : len b + 6 <= maxline.
+  Hypothesis Hnd : no_delim_line b c.
   Hypothesis Hlim : limit_ok limit (len c).
 
   Let tailz : bytes := bline b last pad ++ eol ++ rest.
@@ -601,6 +670,7 @@ Section Exact.
     pose proof (gr_concat _ _ _ _ _ G maxline s HL Hs) as Hcat.
     pose proof (gr_line _ _ _ _ _ G maxline s HL Hs) as Hin.
     pose proof (gr_inv _ _ _ _ _ G maxline s HL Hs) as Hs1.
+    pose proof (gr_full _ _ _ _ _ G maxline s HL Hs) as Hfull.
     pose proof (gr_progress _ _ _ _ _ G maxline s HL Hs ltac:(lia)) as Hprog.
     pose proof (gr_lone_lf _ _ _ _ _ G maxline maxline s HL HL Hs ltac:(lia))
       as Hlone.
@@ -614,8 +684,10 @@ Section Exact.
       destruct (rl maxline s) as [l s1] eqn:E. cbn [fst snd] in *.
       rewrite Hrem in Hcat.
       destruct (boundary_ok_facts b Hb) as (Hchars & _ & _).
-      destruct (step_content b c (List.concat pieces) d lfend l (rem s1) c2 tailz
-                  Hchars Hocc Hc Hlf Hne Hin Hcat)
+      assert (Hfull' : ~ ends_lf l -> maxline <= len l \/ rem s1 = []).
+      { intros Hn'. destruct (Hfull Hn') as [Hx | Hx]; [left; lia | right; exact Hx]. }
+      destruct (step_content maxline b c (List.concat pieces) d lfend l (rem s1)
+                  c2 tailz Hchars Hmaxb Hnd Hc Hlf Hne Hin Hfull' Hcat)
         as (piece & d' & lf' & Hstep & Hall & Hlf' & Hcr & Hnext).
       rewrite (is_nil_false l Hne), Hstep.
       assert (Hlen : len l + len (rem s1) = len (rem s)).
@@ -714,7 +786,8 @@ Theorem lines_to_boundary_exact :
     forallb is_blank_c pad = true ->
     (eol = [13; 10] \/ (eol = [] /\ rest = [])) ->
     len (bline b last pad) + 2 <= maxline ->
-    ~ occurs (10 :: dashb b) (10 :: c) ->
+    len b + 6 <= maxline ->
+    no_delim_line b c ->
     limit_ok limit (len c) ->
     P s ->
     rem s = c ++ [13; 10] ++ bline b last pad ++ eol ++ rest ->
@@ -727,9 +800,9 @@ Theorem lines_to_boundary_exact :
       List.concat pieces = c /\ rem s' = rest /\ P s'.
 Proof.
   intros St rl rem L P G maxline b last pad c eol rest limit s fuel
-         HL Hb Hpad Heol Hmax Hocc Hlim Hs Hrem Hf.
+         HL Hb Hpad Heol Hmax Hmaxb Hnd Hlim Hs Hrem Hf.
   exact (rlob_exact_sec St rl rem L P G maxline HL b last pad c eol rest limit
-           Hb Hpad Heol Hmax Hocc Hlim s fuel Hs Hrem Hf).
+           Hb Hpad Heol Hmax Hmaxb Hnd Hlim s fuel Hs Hrem Hf).
 Qed.
 
 (* ------------------------------------------------------------------ *)
@@ -982,4 +1055,728 @@ Proof.
     + pose proof (divided_cut s (-1) (conj Hz Hu)) as Hc.
       pose proof (len_nonneg (fst (crlf_line (-1) s))). lia.
     + apply (Hs s); [exists []; reflexivity | split; assumption].
+Qed.
+
+(* ------------------------------------------------------------------ *)
+(* (2) round trip of flat part lists: preparations *)
+
+Lemma lstrip_keeps ws c : forall s, In c s -> ws c = false ->
+  In c (lstrip_by ws s).
+Proof.
+  induction s as [|x r IH]; intros Hi Hc; [destruct Hi|].
+  cbn [lstrip_by]. destruct (ws x) eqn:E; [|exact Hi].
+  destruct Hi as [<-|Hi]; [congruence|]. apply IH; assumption.
+Qed.
+
+Lemma strip_keeps c l : In c l -> is_ws c = false -> In c (strip l).
+Proof.
+  intros Hi Hc. unfold strip, strip_by. apply lstrip_keeps; [|exact Hc].
+  rewrite rstrip_by_rev. apply -> in_rev. apply lstrip_keeps; [|exact Hc].
+  apply -> in_rev. exact Hi.
+Qed.
+
+Lemma strip_not_nil c l : In c l -> is_ws c = false -> is_nil (strip l) = false.
+Proof.
+  intros Hi Hc. apply is_nil_false. intros E.
+  pose proof (strip_keeps c l Hi Hc) as H. rewrite E in H. destruct H.
+Qed.
+
+Lemma strip_dash_line b :
+  boundary_ok b = true -> strip (dashb b ++ [13; 10]) = dashb b.
+Proof.
+  intros Hb. destruct (boundary_ok_facts b Hb) as (_ & (b0 & c & -> & Hc) & _).
+  unfold strip, strip_by, dashb.
+  replace ((45 :: 45 :: b0 ++ [c]) ++ [13; 10])
+    with ((45 :: 45 :: b0) ++ [c] ++ [13; 10]) by (lnorm; reflexivity).
+  rewrite rstrip_app_ws; [|apply is_ws_false; exact Hc | reflexivity].
+  reflexivity.
+Qed.
+
+(* UTF-8 never produces a byte 10 for a character other than LF *)
+Ltac Zify.zify_post_hook ::= Z.to_euclidean_division_equations.
+
+Lemma utf8_enc1_no_lf c : c <> 10 -> ~ In 10 (utf8_enc1 c).
+Proof.
+  intros Hc. unfold utf8_enc1.
+  destruct (c <? 128) eqn:E1.
+  { intros [H|[]]. congruence. }
+  apply Z.ltb_ge in E1.
+  destruct (c <? 2048) eqn:E2.
+  { intros [H|[H|[]]]; lia. }
+  destruct (c <? 65536) eqn:E3.
+  { intros [H|[H|[H|[]]]]; lia. }
+  intros [H|[H|[H|[H|[]]]]]; lia.
+Qed.
+
+Lemma utf8_encode_app a b : utf8_encode (a ++ b) = utf8_encode a ++ utf8_encode b.
+Proof. unfold utf8_encode. apply flat_map_app. Qed.
+
+Lemma utf8_encode_no_lf s : ~ In 10 s -> ~ In 10 (utf8_encode s).
+Proof.
+  induction s as [|c s IH]; intros Hs; [intros []|].
+  change (utf8_encode (c :: s)) with (utf8_enc1 c ++ utf8_encode s).
+  intros Hi. apply in_app_or in Hi as [Hi|Hi].
+  - apply (utf8_enc1_no_lf c); [|exact Hi]. intros ->. apply Hs. left.
+    reflexivity.
+  - apply IH; [|exact Hi]. intros H. apply Hs. right. exact H.
+Qed.
+
+Lemma quote_esc_no_lf s : ~ In 10 s -> ~ In 10 (quote_esc s).
+Proof.
+  induction s as [|c s IH]; intros Hs; [intros []|].
+  unfold quote_esc. cbn [flat_map]. fold (quote_esc s). intros Hi.
+  apply in_app_or in Hi as [Hi|Hi].
+  - destruct (c =? 92); [destruct Hi as [H|[H|[]]]; discriminate|].
+    destruct (c =? 34); [destruct Hi as [H|[H|[]]]; discriminate|].
+    destruct Hi as [H|[]]. apply Hs. left. exact H.
+  - apply IH; [|exact Hi]. intros H. apply Hs. right. exact H.
+Qed.
+
+(* the header block as lines *)
+Definition cd_line (p : part) : list Z :=
+  s2l "Content-Disposition: form-data; name=""" ++ quote_esc (p_name p) ++ [34]
+  ++ match p_filename p with
+     | Some f => s2l "; filename=""" ++ quote_esc f ++ [34]
+     | None => []
+     end.
+Definition ct_lines (p : part) : list (list Z) :=
+  match p_ctype p with
+  | Some t => [s2l "Content-Type: " ++ t]
+  | None => []
+  end.
+Definition hdr_lines (p : part) : list bytes :=
+  map utf8_encode (cd_line p :: ct_lines p).
+Definition with_crlf (ls : list bytes) : bytes :=
+  List.concat (map (fun l => l ++ [13; 10]) ls).
+
+Lemma hdr_bytes_lines p : hdr_bytes p = with_crlf (hdr_lines p) ++ [13; 10].
+Proof.
+  unfold hdr_bytes, part_header_text, hdr_lines, with_crlf, cd_line, ct_lines,
+    crlf.
+  destruct (p_filename p) as [f|]; destruct (p_ctype p) as [t|];
+    cbn [map List.concat]; repeat rewrite utf8_encode_app;
+    change (utf8_encode [13; 10]) with [13; 10];
+    change (utf8_encode [34]) with [34];
+    change (utf8_encode []) with (@nil Z); lnorm; reflexivity.
+Qed.
+
+Definition line_ok (l : bytes) : Prop :=
+  ~ In 10 l /\ exists c, In c l /\ is_ws c = false.
+
+Lemma hdr_lines_ok p :
+  ~ In 10 (p_name p) -> (forall f, p_filename p = Some f -> ~ In 10 f) ->
+  (forall t, p_ctype p = Some t -> ~ In 10 t) ->
+  Forall line_ok (hdr_lines p).
+Proof.
+  intros Hn Hf Ht. unfold hdr_lines. cbn [map]. constructor.
+  - split.
+    + apply utf8_encode_no_lf. unfold cd_line. intros Hi.
+      apply in_app_or in Hi as [Hi|Hi].
+      { revert Hi. vm_compute. intuition discriminate. }
+      apply in_app_or in Hi as [Hi|Hi].
+      { revert Hi. apply quote_esc_no_lf. exact Hn. }
+      apply in_app_or in Hi as [Hi|Hi].
+      { destruct Hi as [H|[]]. discriminate. }
+      destruct (p_filename p) as [f|]; [|destruct Hi].
+      apply in_app_or in Hi as [Hi|Hi].
+      { revert Hi. vm_compute. intuition discriminate. }
+      apply in_app_or in Hi as [Hi|Hi].
+      { revert Hi. apply quote_esc_no_lf. apply Hf. reflexivity. }
+      destruct Hi as [H|[]]. discriminate.
+    + exists 67. split; [|reflexivity]. unfold cd_line.
+      rewrite utf8_encode_app. apply in_or_app. left. vm_compute. auto.
+  - unfold ct_lines. destruct (p_ctype p) as [t|]; cbn [map]; constructor;
+      [|constructor].
+    split.
+    + apply utf8_encode_no_lf. intros Hi. apply in_app_or in Hi as [Hi|Hi].
+      { revert Hi. vm_compute. intuition discriminate. }
+      revert Hi. apply Ht. reflexivity.
+    + exists 67. split; [|reflexivity]. rewrite utf8_encode_app.
+      apply in_or_app. left. vm_compute. auto.
+Qed.
+
+Fixpoint body_from (b : bytes) (p : part) (ps : list part) (eolf : bytes)
+  : bytes :=
+  hdr_bytes p ++ p_content p ++ [13; 10] ++
+  match ps with
+  | [] => bline b true [] ++ eolf
+  | q :: qs => bline b false [] ++ [13; 10] ++ body_from b q qs eolf
+  end.
+
+Lemma encode_unfold b : forall ps p final,
+  encode b (p :: ps) final =
+  dashb b ++ [13; 10] ++ body_from b p ps (if final then [13; 10] else []).
+Proof.
+  unfold encode, dashb.
+  induction ps as [|q qs IH]; intros p final.
+  - cbn [map List.concat body_from]. unfold encode_part, bline, dashb, crlf.
+    fold (hdr_bytes p). lnorm. reflexivity.
+  - specialize (IH q final). cbn [map List.concat] in *.
+    rewrite <- (app_assoc (encode_part b p)). rewrite IH.
+    cbn [body_from]. unfold encode_part, bline, dashb, crlf.
+    fold (hdr_bytes p). lnorm. reflexivity.
+Qed.
+
+Lemma with_crlf_cons l ls : with_crlf (l :: ls) = l ++ [13; 10] ++ with_crlf ls.
+Proof. unfold with_crlf. cbn [map List.concat]. lnorm. reflexivity. Qed.
+
+Lemma dashb_no_lf b : boundary_ok b = true -> ~ In 10 (dashb b).
+Proof.
+  intros Hb Hi. destruct (boundary_ok_facts b Hb) as (Hc & _ & _).
+  apply (dashb_chars b 10 Hc) in Hi. lia.
+Qed.
+
+Section Roundtrip.
+  Variable St : Type.
+  Variable rl : Z -> St -> bytes * St.
+  Variable rem : St -> bytes.
+  Variable L : Z -> Prop.
+  Variable P : St -> Prop.
+  Hypothesis G : good_reader St rl rem L P.
+  Variable maxline : Z.
+  Hypothesis HLm : L maxline.
+  Hypothesis HL1 : L (-1).
+  Variable b : bytes.
+  Hypothesis Hb : boundary_ok b = true.
+  Hypothesis Hmax : len b + 6 <= maxline.
+
+  Lemma read_hdr_lines : forall lines acc s rest fuel,
+    Forall line_ok lines -> P s ->
+    rem s = with_crlf lines ++ [13; 10] ++ rest ->
+    (List.length lines < fuel)%nat ->
+    exists s', read_hdr St rl fuel acc s
+                 = Some (acc ++ with_crlf lines ++ [13; 10], s') /\
+               rem s' = rest /\ P s'.
+  Proof.
+    induction lines as [|l lines IH]; intros acc s rest fuel Hok Hs Hrem Hf.
+    - destruct fuel as [|f]; [lia|]. cbn [read_hdr].
+      destruct (read_line_crlf St rl rem L P G (-1) s [] rest HL1 Hs Hrem)
+        as [Hl Hr]; [intros [] | left; lia |].
+      pose proof (gr_inv _ _ _ _ _ G (-1) s HL1 Hs) as Hs1.
+      destruct (rl (-1) s) as [data s1]. cbn [fst snd] in *. subst data.
+      change (strip ([] ++ [13; 10])) with (@nil Z). cbn [is_nil].
+      exists s1. split; [reflexivity | split; assumption].
+    - destruct fuel as [|f]; [cbn in Hf; lia|]. cbn [read_hdr].
+      inversion Hok as [|? ? [Hnl [c [Hc Hw]]] Hok']; subst.
+      rewrite with_crlf_cons in Hrem.
+      replace ((l ++ [13; 10] ++ with_crlf lines) ++ [13; 10] ++ rest)
+        with (l ++ [13; 10] ++ (with_crlf lines ++ [13; 10] ++ rest)) in Hrem
+        by (lnorm; reflexivity).
+      destruct (read_line_crlf St rl rem L P G (-1) s l _ HL1 Hs Hrem Hnl)
+        as [Hl Hr]; [left; lia|].
+      pose proof (gr_inv _ _ _ _ _ G (-1) s HL1 Hs) as Hs1.
+      destruct (rl (-1) s) as [data s1]. cbn [fst snd] in *. subst data.
+      rewrite (strip_not_nil c (l ++ [13; 10]));
+        [|apply in_or_app; left; exact Hc | exact Hw].
+      destruct (IH (acc ++ l ++ [13; 10]) s1 rest f Hok' Hs1 Hr) as (s' & E & R);
+        [cbn in Hf; lia|].
+      exists s'. rewrite E. split; [|exact R].
+      rewrite with_crlf_cons. lnorm. reflexivity.
+  Qed.
+
+  Lemma skip_first s rest fuel :
+    P s -> rem s = dashb b ++ [13; 10] ++ rest -> (0 < fuel)%nat ->
+    exists s', skip_to_boundary St rl fuel (dashb b) 0 s
+                 = Some (len (dashb b) + 2, s') /\
+               rem s' = rest /\ P s'.
+  Proof.
+    intros Hs Hrem Hf. destruct fuel as [|f]; [lia|]. cbn [skip_to_boundary].
+    destruct (read_line_crlf St rl rem L P G (-1) s (dashb b) rest HL1 Hs Hrem)
+      as [Hl Hr]; [apply dashb_no_lf; exact Hb | left; lia |].
+    pose proof (gr_inv _ _ _ _ _ G (-1) s HL1 Hs) as Hs1.
+    destruct (rl (-1) s) as [line s1]. cbn [fst snd] in *. subst line.
+    rewrite (strip_dash_line b Hb), lz_eqb_refl. cbn [negb andb].
+    exists s1. split; [|split; assumption].
+    rewrite len_app. reflexivity.
+  Qed.
+
+  Variable clen : Z.
+  Variable limit : option Z.
+
+  (* the limit is absent, or the Content-Length is the length of the body *)
+  Definition lim_inv (B : Z) (s : St) : Prop :=
+    (clen < 0 /\ limit = None) \/ (limit = Some clen /\ clen = B + len (rem s)).
+
+  Definition plimit (B : Z) (p : part) : option Z :=
+    match limit with
+    | Some Lz => Some (Lz - (B + len (hdr_bytes p)))
+    | None => None
+    end.
+
+  Lemma hdr_lines_short p : (List.length (hdr_lines p) <= 2)%nat.
+  Proof.
+    unfold hdr_lines, ct_lines. destruct (p_ctype p); cbn [map List.length]; lia.
+  Qed.
+
+  (* header block and content of one part *)
+  Lemma part_step p last eol rest fuel0 B s :
+    part_ok b p -> P s ->
+    rem s = hdr_bytes p ++ p_content p ++ [13; 10] ++ bline b last [] ++
+            eol ++ rest ->
+    (eol = [13; 10] \/ (eol = [] /\ rest = [])) ->
+    lim_inv B s -> len (rem s) < Z.of_nat fuel0 ->
+    exists s1 hs pieces s2,
+      read_hdr St rl fuel0 [] s = Some (hdr_bytes p, s1) /\
+      part_headers (utf8_decode (hdr_bytes p)) = Some hs /\
+      parse_part St rl maxline fuel0 hs b (plimit B p) s1
+        = Ok (mkfield (Some (p_name p)) (p_filename p) (expected_type p) pieces,
+              (if last then 1 else 0),
+              len (p_content p) + 2 + len (bline b last []) + len eol, s2) /\
+      List.concat pieces = p_content p /\ rem s2 = rest /\ P s2.
+  Proof.
+    intros (Hn & Hf & Ht & (hs & Hph & Hmeta & Hne1 & Hne2) & Hocc) Hs Hrem
+           Heol Hlim Hfuel.
+    pose proof (bline_len b last []) as Hbl.
+    assert (Hblm : len (bline b last []) + 2 <= maxline).
+    { unfold bline, dashb. destruct last; rewrite !len_app, !len_cons;
+        change (len (@nil Z)) with 0; lia. }
+    rewrite hdr_bytes_lines in Hrem.
+    replace ((with_crlf (hdr_lines p) ++ [13; 10]) ++ p_content p ++ [13; 10] ++
+             bline b last [] ++ eol ++ rest)
+      with (with_crlf (hdr_lines p) ++ [13; 10] ++
+            (p_content p ++ [13; 10] ++ bline b last [] ++ eol ++ rest))
+      in Hrem by (lnorm; reflexivity).
+    assert (Hlen_rem : len (rem s) = len (hdr_bytes p) + len (p_content p) + 2 +
+                                     len (bline b last []) + len eol + len rest).
+    { rewrite Hrem, hdr_bytes_lines, !len_app. change (len [13; 10]) with 2.
+      lia. }
+    pose proof (len_nonneg (hdr_bytes p)). pose proof (len_nonneg (p_content p)).
+    pose proof (len_nonneg eol). pose proof (len_nonneg rest).
+    destruct (read_hdr_lines (hdr_lines p) [] s _ fuel0
+                (hdr_lines_ok p Hn Hf Ht) Hs Hrem) as (s1 & E1 & Hr1 & Hs1).
+    { pose proof (hdr_lines_short p). lia. }
+    cbn [app] in E1. rewrite <- hdr_bytes_lines in E1.
+    assert (Hlimok : limit_ok (plimit B p) (len (p_content p))).
+    { unfold plimit. destruct Hlim as [[_ ->] | [-> Hc]]; [exact I|].
+      right. lia. }
+    assert (Hf1 : len (rem s1) < Z.of_nat fuel0).
+    { rewrite Hr1, !len_app. change (len [13; 10]) with 2. lia. }
+    destruct (lines_to_boundary_exact St rl rem L P G maxline b last []
+                (p_content p) eol rest (plimit B p) s1 fuel0
+                HLm Hb eq_refl Heol Hblm Hmax Hocc Hlimok Hs1 Hr1 Hf1)
+      as (pieces & s2 & E2 & Hc & Hr2 & Hs2).
+    exists s1, hs, pieces, s2.
+    split; [exact E1|]. split; [exact Hph|]. split; [|auto].
+    unfold parse_part. rewrite Hmeta, Hne1, Hne2.
+    destruct (boundary_ok_facts b Hb) as (_ & (b0 & c0 & Eb & _) & _).
+    replace (is_nil b) with false by (rewrite Eb; destruct b0; reflexivity).
+    change (45 :: 45 :: b) with (dashb b).
+    change (45 :: 45 :: b ++ [45; 45]) with (dashb b ++ [45; 45]).
+    rewrite E2. reflexivity.
+  Qed.
+
+  Lemma hdr_bytes_not_nil p : is_nil (hdr_bytes p) = false.
+  Proof.
+    rewrite hdr_bytes_lines. destruct (with_crlf (hdr_lines p)); reflexivity.
+  Qed.
+
+  Variable eolf : bytes.
+  Hypothesis Heolf : eolf = [13; 10] \/ eolf = [].
+
+  Lemma body_from_len p ps : 2 <= len (body_from b p ps eolf).
+  Proof.
+    destruct ps; cbn [body_from]; rewrite !len_app; change (len [13; 10]) with 2;
+      pose proof (len_nonneg (hdr_bytes p)); pose proof (len_nonneg (p_content p)).
+    - pose proof (len_nonneg (bline b true [])). pose proof (len_nonneg eolf).
+      lia.
+    - pose proof (len_nonneg (bline b false [])).
+      pose proof (len_nonneg (body_from b p0 ps eolf)). lia.
+  Qed.
+
+  Lemma part_loop_ok : forall ps p fuel fuel0 acc B s,
+    Forall (part_ok b) (p :: ps) -> P s -> rem s = body_from b p ps eolf ->
+    lim_inv B s -> len (rem s) < Z.of_nat fuel -> len (rem s) < Z.of_nat fuel0 ->
+    exists fields s',
+      part_loop St rl maxline fuel fuel0 b limit clen B acc s
+        = Ok (acc ++ fields, s') /\
+      Forall2 field_matches (p :: ps) fields /\ rem s' = [] /\ P s'.
+  Proof.
+    induction ps as [|q qs IH]; intros p fuel fuel0 acc B s Hall Hs Hrem Hlim
+                                       Hf Hf0.
+    - (* the last part, followed by the close delimiter *)
+      inversion Hall as [|? ? Hp _]; subst. cbn [body_from] in Hrem.
+      destruct fuel as [|fuel]; [pose proof (len_nonneg (rem s)); lia|].
+      cbn [part_loop].
+      destruct (part_step p true eolf [] fuel0 B s Hp Hs)
+        as (s1 & hs & pieces & s2 & E1 & Eh & Ep & Hc & Hr & Hs2); auto.
+      { rewrite app_nil_r. exact Hrem. }
+      { destruct Heolf as [-> | ->]; auto. }
+      rewrite E1, hdr_bytes_not_nil, Eh.
+      change (match limit with
+              | Some L0 => Some (L0 - (B + len (hdr_bytes p)))
+              | None => None
+              end) with (plimit B p).
+      rewrite Ep. cbn [Z.eqb negb orb].
+      eexists [_], s2. split; [reflexivity|]. split; [|auto].
+      constructor; [|constructor].
+      unfold field_matches, f_bytes. cbn [f_name f_filename f_type f_pieces].
+      auto.
+    - (* a part followed by another one *)
+      inversion Hall as [|? ? Hp Hrest]; subst. cbn [body_from] in Hrem.
+      destruct fuel as [|fuel]; [pose proof (len_nonneg (rem s)); lia|].
+      cbn [part_loop].
+      destruct (part_step p false [13; 10] (body_from b q qs eolf) fuel0 B s
+                  Hp Hs Hrem)
+        as (s1 & hs & pieces & s2 & E1 & Eh & Ep & Hc & Hr & Hs2); auto.
+      rewrite E1, hdr_bytes_not_nil, Eh.
+      change (match limit with
+              | Some L0 => Some (L0 - (B + len (hdr_bytes p)))
+              | None => None
+              end) with (plimit B p).
+      rewrite Ep. cbn [Z.eqb negb orb].
+      assert (Hlen : len (rem s) = len (hdr_bytes p) + len (p_content p) + 2 +
+                                   len (bline b false []) + 2 + len (rem s2)).
+      { rewrite Hrem, Hr, !len_app. change (len [13; 10]) with 2. lia. }
+      pose proof (body_from_len q qs) as Hq. rewrite <- Hr in Hq.
+      pose proof (len_nonneg (hdr_bytes p)). pose proof (len_nonneg (p_content p)).
+      pose proof (bline_len b false []).
+      change (len [13; 10]) with 2.
+      replace ((clen <=? B + len (hdr_bytes p) +
+                         (len (p_content p) + 2 + len (bline b false []) + 2)) &&
+               (0 <? clen)) with false.
+      2:{ symmetry. destruct Hlim as [[Hc0 _] | [_ Hc0]].
+          - replace (0 <? clen) with false by (symmetry; apply Z.ltb_ge; lia).
+            apply andb_false_r.
+          - replace (clen <=? _) with false by (symmetry; apply Z.leb_gt; lia).
+            reflexivity. }
+      destruct (IH q fuel fuel0
+                   (acc ++ [mkfield (Some (p_name p)) (p_filename p)
+                                    (expected_type p) pieces])
+                   (B + len (hdr_bytes p) +
+                    (len (p_content p) + 2 + len (bline b false []) + 2))
+                   s2 Hrest Hs2 Hr)
+        as (fields & s' & E & Hm & Hre & Hs'); try lia.
+      { destruct Hlim as [Hl | [Hl Hc0]]; [left; exact Hl | right].
+        split; [exact Hl | lia]. }
+      exists (mkfield (Some (p_name p)) (p_filename p) (expected_type p) pieces
+              :: fields), s'.
+      split; [rewrite E; lnorm; reflexivity|]. split; [|auto].
+      constructor; [|exact Hm].
+      unfold field_matches, f_bytes. cbn [f_name f_filename f_type f_pieces].
+      auto.
+  Qed.
+End Roundtrip.
+
+Lemma boundary_ascii b : boundary_ok b = true ->
+  map (fun c => if c <? 128 then c else 255) b = b.
+Proof.
+  intros Hb. destruct (boundary_ok_facts b Hb) as (Hc & _ & _).
+  clear Hb. induction b as [|x b IH]; [reflexivity|].
+  cbn [map]. rewrite IH by (intros y Hy; apply Hc; right; exact Hy).
+  replace (x <? 128) with true
+    by (symmetry; apply Z.ltb_lt; specialize (Hc x (or_introl eq_refl)); lia).
+  reflexivity.
+Qed.
+
+(* (2) parsing what the RFC 7578 encoder wrote gives back the parts *)
+Theorem multipart_roundtrip :
+  forall (St : Type) (rl : Z -> St -> bytes * St) (rem : St -> bytes)
+         (L : Z -> Prop) (P : St -> Prop),
+    good_reader St rl rem L P ->
+  forall (maxline : Z) (b : bytes) (p : part) (ps : list part) (final : bool)
+         (ctv : list Z) (clen : Z) (s : St) (fuel : nat),
+    L maxline -> L (-1) ->
+    boundary_ok b = true -> len b + 6 <= maxline ->
+    ctype_names ctv b ->
+    Forall (part_ok b) (p :: ps) ->
+    P s -> rem s = encode b (p :: ps) final ->
+    (clen < 0 \/ clen = len (rem s)) ->
+    len (rem s) < Z.of_nat fuel ->
+    exists fields s',
+      parse St rl maxline fuel (Some ctv) clen s = Ok (fields, s') /\
+      Forall2 field_matches (p :: ps) fields /\ rem s' = [].
+Proof.
+  intros St rl rem L P G maxline b p ps final ctv clen s fuel HLm HL1 Hb Hmax
+         (Hc1 & Hc2 & Hc3) Hall Hs Hrem Hclen Hf.
+  unfold parse. destruct (parse_header ctv) as [ct pd]. cbn [fst snd] in *.
+  rewrite Hc3, (boundary_ascii b Hb), Hc1, Hc2.
+  unfold read_multi. rewrite (boundary_ok_valid b Hb). cbn [negb].
+  rewrite encode_unfold in Hrem.
+  destruct (skip_first St rl rem L P G HL1 b Hb s _ fuel Hs Hrem)
+    as (s1 & E1 & Hr1 & Hs1).
+  { pose proof (len_nonneg (rem s)). lia. }
+  change (45 :: 45 :: b) with (dashb b). rewrite E1.
+  assert (Hlen : len (rem s) = len (dashb b) + 2 + len (rem s1)).
+  { rewrite Hrem, Hr1, !len_app. change (len [13; 10]) with 2. lia. }
+  pose proof (len_nonneg (dashb b)).
+  destruct (part_loop_ok St rl rem L P G maxline HLm HL1 b Hb Hmax clen
+              (if 0 <=? clen then Some clen else None)
+              (if final then [13; 10] else [])
+              ltac:(destruct final; auto)
+              ps p fuel fuel [] (len (dashb b) + 2) s1 Hall Hs1 Hr1)
+    as (fields & s' & E & Hm & Hre & _); try lia.
+  { destruct Hclen as [Hc | Hc].
+    - left. split; [exact Hc|].
+      replace (0 <=? clen) with false by (symmetry; apply Z.leb_gt; lia).
+      reflexivity.
+    - right. pose proof (len_nonneg (rem s)).
+      replace (0 <=? clen) with true by (symmetry; apply Z.leb_le; lia).
+      split; [reflexivity | lia]. }
+  exists fields, s'. rewrite E. cbn [app]. auto.
+Qed.
+
+(* ------------------------------------------------------------------ *)
+(* (3) the result does not depend on the reader *)
+
+Definition same_field (f g : field) : Prop :=
+  f_name f = f_name g /\ f_filename f = f_filename g /\ f_type f = f_type g /\
+  f_bytes f = f_bytes g.
+
+Lemma matches_same : forall ps fs gs,
+  Forall2 field_matches ps fs -> Forall2 field_matches ps gs ->
+  Forall2 same_field fs gs.
+Proof.
+  induction ps as [|p ps IH]; intros fs gs H1 H2; inversion H1; inversion H2;
+    subst; constructor.
+  - unfold field_matches, same_field in *. intuition congruence.
+  - apply IH; assumption.
+Qed.
+
+Theorem reader_independent :
+  forall (St1 St2 : Type) rl1 rl2 rem1 rem2 L1 L2 P1 P2,
+    good_reader St1 rl1 rem1 L1 P1 -> good_reader St2 rl2 rem2 L2 P2 ->
+  forall maxline b p ps final ctv clen s1 s2 fuel,
+    L1 maxline -> L1 (-1) -> L2 maxline -> L2 (-1) ->
+    boundary_ok b = true -> len b + 6 <= maxline ->
+    ctype_names ctv b -> Forall (part_ok b) (p :: ps) ->
+    P1 s1 -> P2 s2 ->
+    rem1 s1 = encode b (p :: ps) final -> rem2 s2 = encode b (p :: ps) final ->
+    (clen < 0 \/ clen = len (encode b (p :: ps) final)) ->
+    len (encode b (p :: ps) final) < Z.of_nat fuel ->
+    exists fs1 fs2 t1 t2,
+      parse St1 rl1 maxline fuel (Some ctv) clen s1 = Ok (fs1, t1) /\
+      parse St2 rl2 maxline fuel (Some ctv) clen s2 = Ok (fs2, t2) /\
+      Forall2 same_field fs1 fs2.
+Proof.
+  intros St1 St2 rl1 rl2 rem1 rem2 L1 L2 P1 P2 G1 G2 maxline b p ps final ctv
+         clen s1 s2 fuel Ha Hb Hc Hd Hbo Hmax Hct Hall Hp1 Hp2 Hr1 Hr2 Hclen Hf.
+  destruct (multipart_roundtrip St1 rl1 rem1 L1 P1 G1 maxline b p ps final ctv
+              clen s1 fuel Ha Hb Hbo Hmax Hct Hall Hp1 Hr1)
+    as (fs1 & t1 & E1 & M1 & _); try (rewrite Hr1; assumption).
+  destruct (multipart_roundtrip St2 rl2 rem2 L2 P2 G2 maxline b p ps final ctv
+              clen s2 fuel Hc Hd Hbo Hmax Hct Hall Hp2 Hr2)
+    as (fs2 & t2 & E2 & M2 & _); try (rewrite Hr2; assumption).
+  exists fs1, fs2, t1, t2. split; [exact E1|]. split; [exact E2|].
+  exact (matches_same _ _ _ M1 M2).
+Qed.
+
+(* text fields: decoding the pieces one by one is exact for ASCII content *)
+Lemma utf8_decode_ascii s :
+  Forall (fun c => c < 128) s -> utf8_decode s = s.
+Proof.
+  induction 1 as [|c s Hc _ IH]; [reflexivity|].
+  cbn [utf8_decode].
+  replace (c <? 128) with true by (symmetry; apply Z.ltb_lt; exact Hc).
+  rewrite IH. reflexivity.
+Qed.
+
+Theorem text_exact_ascii f :
+  Forall (fun c => c < 128) (f_bytes f) -> f_text f = f_bytes f.
+Proof.
+  unfold f_text, f_bytes. induction (f_pieces f) as [|p ps IH]; intros H;
+    [reflexivity|].
+  cbn [map List.concat] in *. apply Forall_app in H as [H1 H2].
+  rewrite (utf8_decode_ascii p H1), IH by exact H2. reflexivity.
+Qed.
+
+(* ------------------------------------------------------------------ *)
+(* examples and refutations *)
+
+Definition ex_b : bytes := s2l "XyZ".
+Definition ex_parts : list part :=
+  [mkpart (s2l "a ""b""; c\d") None None (s2l "plain");
+   mkpart (s2l "f") (Some (s2l "x y;.bin")) (Some (s2l "application/octet-stream"))
+          ([13; 10] ++ s2l "--XyZ-" ++ [13; 10; 0; 255; 13] ++ s2l "--XyZ" ++ [13]);
+   mkpart [233; 21517] None None []].
+Definition ex_ctv : list Z := s2l "multipart/form-data; boundary=XyZ".
+
+Fixpoint occursb (p s : list Z) : bool :=
+  prefixb p s || match s with [] => false | _ :: s' => occursb p s' end.
+
+Lemma occursb_complete p : forall x y, occursb p (x ++ p ++ y) = true.
+Proof.
+  induction x as [|a x IH]; intros y.
+  - cbn [app]. destruct (p ++ y) eqn:E; cbn [occursb]; rewrite <- E;
+      rewrite prefixb_app; reflexivity.
+  - cbn [app occursb]. rewrite IH. apply orb_true_r.
+Qed.
+
+Lemma not_occurs p s : occursb p s = false -> ~ occurs p s.
+Proof. intros H [x [y ->]]. rewrite occursb_complete in H. discriminate. Qed.
+
+(* the computed test is sound *)
+Lemma no_delim_from_sound pat : pat <> [] -> forall x y,
+  no_delim_from pat (x ++ pat ++ y) = true -> harmless (y ++ [13; 10]) = true.
+Proof.
+  intros Hp. induction x as [|a x IH]; intros y H.
+  - cbn [app] in H. destruct (pat ++ y) as [|e r] eqn:E.
+    { destruct pat; [congruence | discriminate E]. }
+    cbn [no_delim_from] in H. rewrite <- E in H. rewrite prefixb_app in H.
+    apply andb_true_iff in H as [H _].
+    rewrite skipn_app, skipn_all, Nat.sub_diag in H. exact H.
+  - cbn [app no_delim_from] in H. apply andb_true_iff in H as [_ H].
+    apply IH. exact H.
+Qed.
+
+Lemma no_delim_lineb_sound b c : no_delim_lineb b c = true -> no_delim_line b c.
+Proof.
+  unfold no_delim_lineb, no_delim_line. intros H x y E. rewrite E in H.
+  apply (no_delim_from_sound (10 :: dashb b)) in H; [exact H | discriminate].
+Qed.
+
+(* a content without any line that starts with the dash-boundary *)
+Lemma not_occurs_no_delim b c :
+  ~ occurs (10 :: dashb b) (10 :: c) -> no_delim_line b c.
+Proof. intros H x y E. exfalso. apply H. exists x, y. exact E. Qed.
+
+Lemma not_in_b (x : Z) l : existsb (Z.eqb x) l = false -> ~ In x l.
+Proof.
+  intros H Hi. assert (existsb (Z.eqb x) l = true).
+  { apply existsb_exists. exists x. split; [exact Hi | apply Z.eqb_refl]. }
+  congruence.
+Qed.
+
+(* the hypotheses of the theorems hold for a non-trivial input *)
+Lemma ex_part_ok p :
+  existsb (Z.eqb 10) (p_name p) = false ->
+  match p_filename p with Some f => existsb (Z.eqb 10) f | None => false end
+    = false ->
+  match p_ctype p with Some f => existsb (Z.eqb 10) f | None => false end
+    = false ->
+  match part_headers (utf8_decode (hdr_bytes p)) with
+  | Some hs =>
+      match part_meta hs ex_b with
+      | (Some n, fn, t) =>
+          lz_eqb n (p_name p) &&
+          match fn, p_filename p with
+          | Some a, Some a' => lz_eqb a a'
+          | None, None => true
+          | _, _ => false
+          end && lz_eqb t (expected_type p)
+      | _ => false
+      end
+  | None => false
+  end = true ->
+  lz_eqb (expected_type p) (s2l "application/x-www-form-urlencoded") = false ->
+  lz_eqb (slice_to (expected_type p) 10) (s2l "multipart/") = false ->
+  no_delim_lineb ex_b (p_content p) = true ->
+  part_ok ex_b p.
+Proof.
+  intros H1 H2 H3 H4 H5 H6 H7. unfold part_ok. split; [|split; [|split; [|split]]].
+  - apply not_in_b. exact H1.
+  - intros f E. rewrite E in H2. apply not_in_b. exact H2.
+  - intros f E. rewrite E in H3. apply not_in_b. exact H3.
+  - unfold headers_decode.
+    destruct (part_headers (utf8_decode (hdr_bytes p))) as [hs|]; [|discriminate].
+    exists hs. split; [reflexivity|]. split; [|split; assumption].
+    destruct (part_meta hs ex_b) as [[[n|] fn] t]; [|discriminate].
+    apply andb_true_iff in H4 as [H4 Ht]. apply andb_true_iff in H4 as [Hn Hf].
+    apply lz_eqb_eq in Hn, Ht. subst n t.
+    destruct fn as [a|], (p_filename p) as [a'|]; try discriminate.
+    + apply lz_eqb_eq in Hf. subst a'. reflexivity.
+    + reflexivity.
+  - apply no_delim_lineb_sound. exact H7.
+Qed.
+
+Example ex_hypotheses :
+  boundary_ok ex_b = true /\ ctype_names ex_ctv ex_b /\
+  Forall (part_ok ex_b) ex_parts.
+Proof.
+  split; [reflexivity|]. split; [repeat split; vm_compute; reflexivity|].
+  unfold ex_parts.
+  repeat (apply Forall_cons; [apply ex_part_ok; vm_compute; reflexivity|]).
+  apply Forall_nil.
+Qed.
+
+(* ... and the parser indeed returns the parts, through both readers *)
+Example ex_roundtrip_lf :
+  exists fs, parse bytes lf_line 65536 (fuel_for (encode ex_b ex_parts true))
+                   (Some ex_ctv) (-1) (encode ex_b ex_parts true) = Ok (fs, [])
+             /\ map f_bytes fs = map p_content ex_parts.
+Proof. eexists. split; vm_compute; reflexivity. Qed.
+
+Example ex_roundtrip_crlf_small_limit :
+  exists fs, parse bytes crlf_line 16 (fuel_for (encode ex_b ex_parts false))
+                   (Some ex_ctv) (len (encode ex_b ex_parts false))
+                   (encode ex_b ex_parts false) = Ok (fs, [])
+             /\ map f_bytes fs = map p_content ex_parts.
+Proof. eexists. split; vm_compute; reflexivity. Qed.
+
+(* ---- where the faithful model does NOT return the content *)
+
+(* (a) candidate defect.  The CRLF-splitting reader (CachedInput) with a line
+   limit: when the CR of the CRLF in front of the delimiter is the last byte
+   of a full piece, the next piece is "\n--b\r\n", the carried CR makes it
+   "\r\n--b\r\n", which does not start with "--": the delimiter is missed
+   and the following parts are swallowed.  Witness with line limit 8; the
+   implementation does the same with 65536 (content of 65535 CRLF-free
+   bytes), see the check's large correspondence cases and its monitor. *)
+Theorem crlf_cut_divides_delimiter_refuted :
+  exists maxline b c rest input,
+    input = c ++ [13; 10] ++ bline b false [] ++ [13; 10] ++ rest /\
+    boundary_ok b = true /\ len (bline b false []) + 2 <= maxline /\
+    len b + 6 <= maxline /\ no_delim_line b c /\
+    ~ crlf_safe maxline input /\
+    exists pieces n,
+      rlob bytes crlf_line maxline (fuel_for input) (dashb b)
+           (dashb b ++ [45; 45]) None [] [] true 0 input
+        = RDone pieces (-1) n [] /\
+      List.concat pieces <> c.
+Proof.
+  exists 8, (s2l "b"), (s2l "aaaaaaa"), (s2l "next"). eexists.
+  split; [reflexivity|]. split; [reflexivity|].
+  split; [vm_compute; discriminate|]. split; [vm_compute; discriminate|].
+  split; [apply no_delim_lineb_sound; reflexivity|]. split.
+  - intros H. apply (H _ (ex_intro _ [] eq_refl)). split.
+    + exists (s2l "aaaaaaa"). reflexivity.
+    + eexists. vm_compute. reflexivity.
+  - eexists _, _. split; [vm_compute; reflexivity|]. vm_compute. discriminate.
+Qed.
+
+(* (b) the hypothesis cannot be weakened to RFC 2046's "CRLF--b does not
+   occur in the content": a line that follows a bare LF (or is the first
+   line of the content) and reads --b ends the part for the LF-splitting
+   reader.  Python's cgi module behaved the same way; not counted as a
+   defect because the property assumes that the boundary does not occur. *)
+Theorem rfc_delimiter_hypothesis_refuted :
+  exists b c rest input,
+    input = c ++ [13; 10] ++ bline b false [] ++ [13; 10] ++ rest /\
+    boundary_ok b = true /\ ~ occurs (13 :: 10 :: dashb b) c /\
+    exists pieces n s',
+      rlob bytes lf_line 65536 (fuel_for input) (dashb b)
+           (dashb b ++ [45; 45]) None [] [] true 0 input
+        = RDone pieces 0 n s' /\
+      List.concat pieces <> c.
+Proof.
+  exists (s2l "b"), (s2l "a" ++ [10] ++ s2l "--b" ++ [13; 10] ++ s2l "z"),
+         (s2l "next"). eexists.
+  split; [reflexivity|]. split; [reflexivity|].
+  split; [apply not_occurs; reflexivity|].
+  eexists _, _, _. split; [vm_compute; reflexivity|]. vm_compute. discriminate.
+Qed.
+
+(* (c) on bodies that are not RFC 7578 encodings the two readers may
+   disagree (a bare LF in front of a delimiter line) *)
+Theorem reader_independent_any_input_refuted :
+  exists ctv body,
+    parse bytes lf_line 65536 (fuel_for body) (Some ctv) (-1) body <>
+    parse bytes crlf_line 65536 (fuel_for body) (Some ctv) (-1) body.
+Proof.
+  exists (s2l "multipart/form-data; boundary=b"),
+         (s2l "--b" ++ [13; 10] ++
+          s2l "Content-Disposition: form-data; name=""a""" ++ [13; 10; 13; 10] ++
+          s2l "x" ++ [10] ++ s2l "--b--" ++ [13; 10]).
+  vm_compute. discriminate.
+Qed.
+
+(* (d) the header codec is a hypothesis of the round trip for a reason: a
+   name that ends in a backslash in front of a filename parameter does not
+   come back (the C18 finding param-backslash-before-next-param) *)
+Theorem headers_decode_backslash_refuted :
+  exists b p, ~ In 10 (p_name p) /\ ~ headers_decode b p.
+Proof.
+  exists (s2l "b"), (mkpart (s2l "trail\") (Some (s2l "f.txt")) None []).
+  split; [vm_compute; intuition discriminate|].
+  intros (hs & H1 & H2 & _). vm_compute in H1. injection H1 as <-.
+  vm_compute in H2. discriminate.
 Qed.
